@@ -825,6 +825,8 @@ func runCloudEvents(rc *RunCtx) {
 	signN := 0
 	failAt := map[int]bool{}
 	panicAt := map[int]bool{} // subset of failAt: the signer does not return, it panics
+	ctxAt := map[int]bool{}   // subset of failAt: the caller's context is cancelled while the signer works; it gives up with the context's error
+	curCancel := func() {}
 	var signedInputs [][]byte
 	key := "k1"
 	// selfRotate: a limited-use key: the signer installs its successor (FormatterFilter.Rotate)
@@ -839,6 +841,11 @@ func runCloudEvents(rc *RunCtx) {
 			if failAt[signN] {
 				if panicAt[signN] {
 					panic(fmt.Sprintf("injected signer panic #%d", signN)) // e.g. a nil dereference in a KMS client
+				}
+				if ctxAt[signN] {
+					curCancel() // the Send this event belongs to is cancelled (or times out) right now
+					simrt.Probe("ce.signer-gave-up-on-cancelled-context")
+					return "", fmt.Errorf("kms: request #%d abandoned: %w", signN, ctx.Err())
 				}
 				return "", fmt.Errorf("injected signer failure #%d", signN)
 			}
@@ -865,8 +872,11 @@ func runCloudEvents(rc *RunCtx) {
 			for i := 0; i < 3; i++ {
 				at := 1 + tp.Choose(6, "failat")
 				failAt[at] = true
-				if tp.Choose(3, "by-panic") == 0 {
+				switch tp.Choose(3, "by-panic") {
+				case 0:
 					panicAt[at] = true
+				case 1:
+					ctxAt[at] = true
 				}
 			}
 		}
@@ -1007,7 +1017,10 @@ func runCloudEvents(rc *RunCtx) {
 						simrt.Probe("ce.signer-panicked")
 					}
 				}()
-				out, err = ff.Process(context.Background(), e)
+				pctx, cancel := context.WithCancel(context.Background())
+				curCancel = cancel
+				defer cancel()
+				out, err = ff.Process(pctx, e)
 			}()
 			val, stored := e.Format(storeKey)
 			if stored && stale != nil && bytes.Equal(val, stale) {
